@@ -63,12 +63,16 @@ def run(ctx, progs):
     ctx.rule("MOD1", "REQUIRES(modulus > 0) discharged")
     ctx.rule("ZST1", "no size_of/align_of/offset_from/needs_drop/byte arithmetic")
     ctx.rule("LEN1", "size stores of reviewed shape; no Mul/Shl/Div on lengths")
+    ctx.rule("ARITH1", "no Add/Mul on caller-supplied indices/lengths (usize::MAX arguments) outside reviewed sites")
     for cfg, prog in progs.items():
         pos1(ctx, prog, cfg)
         eng = shared.run_mod1(prog)
         shared.report_requires(ctx, eng, "MOD1", cfg)
         zst1(ctx, prog, cfg)
         len1(ctx, prog, cfg)
+        from . import c11
+
+        c11.arith1(ctx, prog, cfg)
 
 
 def pos1(ctx, prog, cfg):
